@@ -352,6 +352,11 @@ func (c *PolyCtx) copiedFrom1(a *ssa.Alloc) (string, bool) {
 	if len(whole) != 1 {
 		return "", false
 	}
+	// the result of a call kept in a local (`x := find(...)` then x.f): the same object as the result
+	switch rv := whole[0].Val.(type) {
+	case *ssa.Call, *ssa.Extract:
+		return c.accessPath(rv)
+	}
 	ld, ok := whole[0].Val.(*ssa.UnOp)
 	if !ok || ld.Op != token.MUL {
 		return "", false
@@ -692,7 +697,7 @@ func (c *PolyCtx) of(v ssa.Value) Poly {
 		return c.opaque("unop"+x.Op.String(), v, c.Of(x.X))
 	case *ssa.Convert:
 		if isIntLike(x.Type()) && isIntLike(x.X.Type()) {
-			if intSize(x.Type()) < intSize(x.X.Type()) && !polyIgnoreNarrowing {
+			if intSize(x.Type()) < intSize(x.X.Type()) && !polyIgnoreNarrowing && !fitsNarrow(x.X, x.Type(), 0) {
 				return c.opaque(fmt.Sprintf("narrow%d", intSize(x.Type())*8), v, c.Of(x.X))
 			}
 			return c.Of(x.X)
@@ -1241,3 +1246,57 @@ func resolveCell(v ssa.Value) ssa.Value {
 // looking for positive evidence of what a comparison measures against (the code under analysis
 // itself assumes the values fit), never for discharging an obligation.
 var polyIgnoreNarrowing bool
+
+// fitsNarrow: every value v can take fits the narrower integer type t, so converting it to t
+// changes nothing: v was widened from a type no wider than t (same signedness), is a constant in
+// range, or is the larger/smaller/merge of such values.
+func fitsNarrow(v ssa.Value, t types.Type, depth int) bool {
+	if depth > 5 {
+		return false
+	}
+	tb, ok := t.Underlying().(*types.Basic)
+	if !ok {
+		return false
+	}
+	switch x := v.(type) {
+	case *ssa.Convert:
+		sb, ok := x.X.Type().Underlying().(*types.Basic)
+		if !ok || sb.Info()&types.IsInteger == 0 {
+			return false
+		}
+		sameSign := (sb.Info()&types.IsUnsigned != 0) == (tb.Info()&types.IsUnsigned != 0)
+		if sameSign && intSize(x.X.Type()) <= intSize(t) {
+			return true
+		}
+		return fitsNarrow(x.X, t, depth+1)
+	case *ssa.Const:
+		k, isC := constInt(x)
+		if !isC {
+			return false
+		}
+		bits := uint(intSize(t) * 8)
+		if tb.Info()&types.IsUnsigned != 0 {
+			return k >= 0 && (bits >= 63 || k < int64(1)<<bits)
+		}
+		return bits >= 64 || (k >= -(int64(1)<<(bits-1)) && k < int64(1)<<(bits-1))
+	case *ssa.Phi:
+		for _, e := range x.Edges {
+			if e != v && !fitsNarrow(e, t, depth+1) {
+				return false
+			}
+		}
+		return true
+	case *ssa.Call:
+		for _, kind := range []string{"max", "min"} {
+			if args, ok := minMaxArgs(x, kind); ok {
+				for _, a := range args {
+					if !fitsNarrow(a, t, depth+1) {
+						return false
+					}
+				}
+				return true
+			}
+		}
+	}
+	return false
+}
